@@ -221,6 +221,23 @@ def check_additive(c):
         res.check(ok and np.abs(ref.dense(Y) / sc - E).max() <= 1e-10 * (1 + np.abs(E).max()), 'additive.scaled', case,
                   lambda: 'values scaled by %g / %d rows: additive function not reproduced (dev %.3e)' % (sc, len(Ig), np.abs(ref.dense(Y) / sc - E).max() if ok else -1),
                   ['additive'])
+    # equivalent argument forms: lists, other integer dtypes, NumPy-integer rank / order
+    with warnings.catch_warnings():
+        warnings.simplefilter('ignore')
+        base = teneva.anova(grid, y, 2, 1, 0., seed=0)
+        for nm, (Ig, yg, rr, oo) in {'lists': (grid.tolist(), y.tolist(), 2, 1), 'int32': (grid.astype(np.int32), y, 2, 1), 'uint8': (grid.astype(np.uint8), y, 2, 1),
+                                     'float32-y': (grid, y.astype(np.float32), 2, 1), 'numpy-ints': (grid, y, np.int64(2), np.int64(1)),
+                                     'fortran': (np.asfortranarray(grid), y, 2, 1)}.items():
+            res.ev()
+            try:
+                Y = teneva.anova(Ig, yg, rr, oo, 0., seed=0)
+            except Exception as ex:
+                res.fail('forms.raised', dict(c, form=nm), 'anova raised %s for the %s form' % (type(ex).__name__, nm), ['forms'])
+                continue
+            ok = ref.wellformed(Y, shape) is None
+            tolf = 1e-5 if nm == 'float32-y' else 1e-12
+            res.check(ok and np.abs(ref.dense(Y) - ref.dense(base)).max() <= tolf * (1 + np.abs(E).max()), 'forms', dict(c, form=nm),
+                      lambda: 'the %s form of the training data gives a different tensor' % nm, ['forms'])
     res.nt(tuple(shape))
     return res
 
